@@ -48,18 +48,21 @@ impl std::str::FromStr for BdlBlock {
         // Algunos bloques pueden estar vacíos y no tener name, como
         // "LOADS-REPORT", "SYSTEMS-REPORT", "PLANT-REPORT"
         if let [btype] = stanza.as_slice() {
-            return Ok(BdlBlock {
-                name: btype.to_string(),
-                btype: btype.parse()?,
-                parent: None,
-                attrs: AttrMap::new(),
-            });
+            if !btype.contains('=') {
+                return Ok(BdlBlock {
+                    name: btype.to_string(),
+                    btype: btype.parse()?,
+                    parent: None,
+                    attrs: AttrMap::new(),
+                });
+            }
         }
 
-        let [bheadline, bdata] = if let [bheadline, bdata] = stanza.as_slice() {
-            [bheadline, bdata]
-        } else {
-            bail!("Error al interpretar el bloque: '{:?}'", s);
+        // Un bloque con encabezado pero sin atributos ("P01_E01" = SPACE ..) tiene datos vacíos
+        let [bheadline, bdata] = match stanza.as_slice() {
+            [bheadline, bdata] => [*bheadline, *bdata],
+            [bheadline] => [*bheadline, ""],
+            _ => bail!("Error al interpretar el bloque: '{:?}'", s),
         };
         // Interpreta encabezado como nombre = tipo
         let headlineparts = bheadline
